@@ -479,7 +479,14 @@ func (s *Store) pushFile(target string, expected ocispec.Descriptor, content io.
 		return fmt.Errorf("failed to create file %s: %w", target, err)
 	}
 
-	return s.saveFile(fp, expected, content)
+	if err := s.saveFile(fp, expected, content); err != nil {
+		// do not leave a partial or mismatched file behind: the name is not
+		// recorded as existing, and with DisableOverwrite the leftover would
+		// block any retry
+		os.Remove(target)
+		return err
+	}
+	return nil
 }
 
 // pushDir saves content matching the descriptor to the target directory.
